@@ -1716,10 +1716,15 @@ def probes():
             lambda: pcompile(nested)(3, 2, 5) != evaluate(nested, {"a": 3, "b": 2, "c": 5}),
             "compile(Comparison(Comparison(a, '<', b), '<', c))(3, 2, 5)")
 
+    attempt("compile:Power>negative-int", lambda: pcompile(p.Power(-2, a))(2) != 4,
+            "compile(Power(-2, a))(2): a negative constant base of a power must be parenthesised")
+    attempt("compile:Power>negative-float", lambda: pcompile(p.Power(-2.5, a))(2) != 6.25,
+            "compile(Power(-2.5, a))(2)")
+
     # open findings (listed in known_findings.C13.jsonl): replayed through the oracle
     cs = CompileStream()
     for e in [p.Comparison(p.LogicalNot(a), "==", b), p.Product((a, p.LogicalNot(b))),
-              p.Sum((p.LogicalNot(a), b)), p.BitwiseNot(p.LogicalNot(a)), p.Power(-2, a),
+              p.Sum((p.LogicalNot(a), b)), p.BitwiseNot(p.LogicalNot(a)),
               p.LogicalAnd((a, b)), p.LogicalOr((a, b)), p.CommonSubexpression(a)]:
         pl = {"expr": dumps(expr_to_sx(e)), "listed": [], "src": "probe",
               "envs": [dumps(env_to_sx({"a": 2, "b": 3})), dumps(env_to_sx({"a": False, "b": False})),
@@ -1728,8 +1733,7 @@ def probes():
         if fl is not None:
             res.append((fl.key, True, fl.detail))
     sg = SourceGroupsStream()
-    for e in [p.Power(-2.5, a), p.Power(-2, a), p.Comparison(p.LogicalNot(a), "==", b),
-              p.BitwiseNot(p.LogicalNot(a))]:
+    for e in [p.Comparison(p.LogicalNot(a), "==", b), p.BitwiseNot(p.LogicalNot(a))]:
         pl = {"expr": dumps(expr_to_sx(e)), "src": "probe", "envs": [dumps(env_to_sx({"a": 2, "b": 3}))]}
         fl = sg.oracle(pl)
         if fl is not None:
@@ -1755,22 +1759,20 @@ PROP = Prop(
              "are exact numbers and of | ^ & ints/bools (else a different error can surface); "
              "keyword calls, floats, slices: executing oracle only",
              "PV.C13.compile_source_groups_partial":
-             "the compiled SOURCE TEXT groups, under any parser table, the way the tree does on the "
-             "decidable fragment C13R.InFragment (covered node shapes: n-ary | ^ & and or with two "
-             "operands, sums/products with two or more; every child passes the local condition; "
-             "source_bad_pairs_current lists the 42 failing (position, child class) pairs for the "
-             "Python table: the known findings compile:<Parent>>LogicalNot and "
-             "compile:Power>negative-int/float, plus value-preserving regroupings and limits of the "
+             "the compiled SOURCE TEXT (= the stringifier's text since the repair of "
+             "CompileMapper.map_constant: compile_text_is_str) groups, under any parser table, the "
+             "way the tree does on the decidable fragment InFragment of C06 (covered node shapes: "
+             "n-ary | ^ & and or with two operands, sums/products with two or more; every child "
+             "passes the local condition; source_bad_pairs_current lists the 40 failing (position, "
+             "child class) pairs for the Python table: the known findings "
+             "compile:<Parent>>LogicalNot, plus value-preserving regroupings and limits of the "
              "parser scheme).  Python's grammar itself is the hand-written table PV.C13.pythonPrec, "
              "tied to CPython's ast.parse by the stream py-table outside four excluded shapes "
              "(comparison chains, `not` before a tighter operator, `*` followed by `/ // %`, an "
              "else-branch followed by `,` or `:`), none of which occurs in a source of the fragment "
              "(checked per case by the stream source-groups).  What the grouped operators COMPUTE "
              "(and/or returning operands, min/max) stays with the executing oracle",
-             "PV.C13.compile_source_groups_flat_partial": "the same with nested sums and products",
-             "PV.C13.compile_source_groups_via_str_partial":
-             "the literal instance of C06.roundtrip_partial: needs every signed constant in a "
-             "position where str prints it bare"},
+             "PV.C13.compile_source_groups_flat_partial": "the same with nested sums and products"},
     extractors=[extract],
     streams=[CompileStream(), ArgOrderStream(), ToAstStream(), FunctionSourceStream(),
              RoundTripStream(), FromAstStream(), DenAstStream(), PyTableStream(),
